@@ -122,6 +122,7 @@ func musTrees() [][]musNode {
 	}
 	leaves = append(leaves,
 		musNode{kind: "var", text: "a"}, musNode{kind: "var", text: "B", spelling: 1}, musNode{kind: "esc", text: "a"}, musNode{kind: "esc", text: "b"},
+		musNode{kind: "var", text: "if"}, musNode{kind: "var", text: "unless"},
 		musNode{kind: "var", text: "UserName"}, musNode{kind: "esc", text: "Ab"},
 		musNode{kind: "comment", text: " c "}, musNode{kind: "comment", text: "a b # /"}, musNode{kind: "var", text: "x_1"}, musNode{kind: "var", text: "if1"})
 	small := []musNode{{kind: "text", text: "t"}, {kind: "var", text: "a"}, {kind: "esc", text: "b"}, {kind: "text", text: " {x} "}}
@@ -133,7 +134,7 @@ func musTrees() [][]musNode {
 		}
 	}
 	sp := 0
-	for _, name := range []string{"a", "b", "A"} {
+	for _, name := range []string{"a", "b", "A", "if", "unless"} {
 		for _, inv := range []bool{false, true} {
 			for spelling := 0; spelling < 8; spelling++ {
 				for _, b1 := range small {
@@ -158,7 +159,7 @@ func musTrees() [][]musNode {
 
 var musMalformed = []string{
 	"{{", "{{a", "{{a}", "{{{a}}", "{{a}}}", "{{#a}}", "{{#a}}x", "{{/a}}", "x{{/a}}", "{{#a}}{{/b}}", "{{#a}}{{#b}}{{/a}}{{/b}}", "{{^a}}", "{{#if a}}x", "{{#unless a}}",
-	"{{#a}}x{{/a}", "{{{#a}}}x{{/a}}}", "{{#a}}}x{{/a}}", "{{!c", "{{#a}}{{#b}}x{{/b}}", "{{}}", "{{#}}", "{{/}}", "{{a b}}", "{{#a b}}x{{/a}}", "{{a}}{{", "{{{", "{{#a}}{{/a}}{{/a}}", "Hello{{! note }}}, {{name}}!", "{{{! c }} x {{{a}}}", "{{! c }}}",
+	"{{#a}}x{{/a}", "{{{#a}}}x{{/a}}}", "{{#a}}}x{{/a}}", "{{!c", "{{#a}}{{#b}}x{{/b}}", "{{}}", "{{#}}", "{{/}}", "{{a b}}", "{{#a b}}x{{/a}}", "{{a}}{{", "{{{", "{{#a}}{{/a}}{{/a}}", "x{{/if}}", "{{#a}}b{{/a}}{{/if}}", "{{/unless}}", "text{{/if}}", "Hello{{! note }}}, {{name}}!", "{{{! c }} x {{{a}}}", "{{! c }}}",
 }
 
 var musxMemo map[string]*simpleVerdict
@@ -172,7 +173,7 @@ func (c *Ctx) musxRun() map[string]*simpleVerdict {
 	}
 	trees := musTrees()
 	varSets := []map[string]string{
-		{}, {"a": "v"}, {"a": ""}, {"b": "w"}, {"a": "v", "b": "w"}, {"a": "v", "b": ""}, {"A": "Up"}, {"a": "<&\"/\\\n\t>"}, {"B": "x\r\b\f", "a": "ж"}, {"a": "{{b}}", "b": "1"}, {"x_1": "X", "if1": "I"}, {"USERNAME": "U1", "aB": "v2"}, {"Username": "U2", "AB": "v3"}, {"username": "U3", "ab": "v4"},
+		{}, {"a": "v"}, {"a": ""}, {"b": "w"}, {"a": "v", "b": "w"}, {"a": "v", "b": ""}, {"A": "Up"}, {"a": "<&\"/\\\n\t>"}, {"B": "x\r\b\f", "a": "ж"}, {"a": "{{b}}", "b": "1"}, {"x_1": "X", "if1": "I"}, {"if": "yes", "unless": ""}, {"unless": "u", "a": "v"}, {"USERNAME": "U1", "aB": "v2"}, {"Username": "U2", "AB": "v3"}, {"username": "U3", "ab": "v4"},
 	}
 	res := map[string]*simpleVerdict{"render": {}, "reject": {}}
 	var mu sync.Mutex
@@ -300,7 +301,7 @@ func (c *Ctx) musxRun() map[string]*simpleVerdict {
 
 func init() {
 	register(&Rule{ID: "MUS.reference", Floor: 2,
-		Doc: "the template engine evaluated abstractly (NewMustacheTemplate, SetTemplate, EvaluateWithVariables) on templates printed from generated syntax trees (text with braces/quotes, variables, escaped variables, comments, sections and inverted sections in 8 spellings each, nested, empty, adjacent) × 14 variable maps (present, empty, absent, other key case, values needing escapes): the rendering equals the statement's semantics; 30 malformed templates are rejected",
+		Doc: "the template engine evaluated abstractly (NewMustacheTemplate, SetTemplate, EvaluateWithVariables) on templates printed from generated syntax trees (text with braces/quotes, variables, escaped variables, comments, sections and inverted sections in 8 spellings each, nested, empty, adjacent) × 16 variable maps (present, empty, absent, other key case, values needing escapes): the rendering equals the statement's semantics; 34 malformed templates are rejected",
 		Run: func(c *Ctx) []*Obligation {
 			o := newObl("MUS.reference")
 			res := c.musxRun()
